@@ -535,6 +535,69 @@ def singleton_programs():
 # =============================================================================================
 # random well-typed programs (seeded)
 # =============================================================================================
+# =============================================================================================
+# C14: programs whose observable behaviour would depend on map iteration order if any part of the
+# tool chain let it through: objects with several fields, many locals, many functions, many globals
+# =============================================================================================
+def order_programs(seed=0):
+    import random as _r
+    rnd = _r.Random(seed)
+    progs = []
+    names = ["zeta", "alpha", "mid", "beta", "kappa", "q", "a", "z", "m1", "m2", "omega", "b"]
+
+    def add(name, fns, globs=(), **feats):
+        progs.append(Program("o_" + name, fns, globs, feats=dict(feats, family="order", template=name)))
+
+    def main(*stmts):
+        return {"main": Fn([], Block(list(stmts)))}
+
+    # objects with 2..12 fields in shuffled definition order: display, field access, equality, nesting
+    for n in (2, 3, 5, 8, 12):
+        for variant in range(3):
+            ks = names[:n]
+            rnd.shuffle(ks)
+            fs = {k: I(i + 1) for i, k in enumerate(ks)}
+            ks2 = list(ks)
+            rnd.shuffle(ks2)
+            fs2 = {k: fs[k] for k in ks2}
+            add("obj%d_%d" % (n, variant),
+                main(Let("o", Obj(**fs)), Print(V("o")), Let("p", Obj(**fs2)), Print(Bin("==", V("o"), V("p"))),
+                     Print(*[Mem(V("o"), k) for k in sorted(ks)]),
+                     Let("l", List(V("o"), V("p"))), Print(V("l")),
+                     Let("w", Obj(inner=V("o"), other=Obj(y=S("s"), x=List(I(1), I(2))), n=I(0))), Print(V("w"))),
+                fields=n)
+    # many locals: 40 bindings with shadowing, summed and printed in a fixed order
+    for variant in range(3):
+        stmts = []
+        vs = ["v%d" % i for i in range(40)]
+        rnd.shuffle(vs)
+        for i, v in enumerate(vs):
+            stmts.append(Let(v, I(i + 1)))
+        for v in vs[:10]:
+            stmts.append(Let(v, Bin("+", V(v), I(100))))
+        acc = I(0)
+        for v in sorted(vs):
+            acc = Bin("+", Bin("*", acc, I(3)), V(v))
+        stmts.append(Print(*[V(v) for v in sorted(vs)[:12]]))
+        stmts.append(Print(Bin("%", acc, I(1000003))))
+        add("locals_%d" % variant, main(*stmts), locals=40)
+    # many functions calling each other, many globals
+    for variant in range(3):
+        k = 14
+        order = list(range(k))
+        rnd.shuffle(order)
+        fns = {}
+        for i in order:
+            body = [Print(S("f%d" % i), V("g%d" % i)), Expr(Asg(V("g%d" % i), Bin("+", V("g%d" % i), I(1))))]
+            if i + 1 < k:
+                body.append(Expr(Call("f%d" % (i + 1))))
+            fns["f%d" % i] = Fn([], Block(body))
+        fns["main"] = Fn([], Block([Expr(Call("f0")), Expr(Call("f7")), Print(*[V("g%d" % i) for i in range(k)])]))
+        globs = [("g%d" % i, I(i * 10)) for i in order]
+        add("fns_%d" % variant, fns, globs, nfns=k)
+    return progs
+
+
 class RandGen:
     """small type-directed generator over ints, bools, strings, int lists; effects are prints"""
 
